@@ -23,7 +23,7 @@ def run_lp(case, want_long=True):
     c.oracle = refmodel.Oracle(inst, opts['twopl'], opts['pc'])
     c.criteria = strategies.ordered_criteria(opts)
     c.run = solverio.Run(inst, opts, case.get('mode', 'eb'), case.get('choices', ()),
-                         noise=case.get('noise'), salt=case.get('salt', 0),
+                         noise=case.get('noise'), salt=case.get('salt', 0), threads=case.get('threads'),
                          decoy=case.get('decoy'),
                          presolves=case.get('presolves', 0)).solve()
     c.records = c.run.backend.records
@@ -102,10 +102,14 @@ def lp_cases(draw, tier, cbc_pct=8, inst_kw=None, opt_kw=None, sizes=None, large
     if large_pct and pct(draw) < large_pct:
         # two-digit ids, long lists: only oracles that need no enumeration apply (real CBC)
         salt = draw(strategies.salts)
-        if pct(draw) < 50:
+        k = pct(draw)
+        if k < 40:
             inst = draw(strategies.instances(LARGE[tier], **(inst_kw or {})))
-        else:
+        elif k < 85:
             inst = draw(embedded_instances(**(inst_kw or {})))
+        else:
+            inst = draw(strategies.crowd_instances(
+                two_sided=(inst_kw or {}).get('two_sided', draw(st.booleans()))))
         opts = draw(strategies.option_sets(inst, **(opt_kw or {})))
         return {'inst': inst, 'opts': opts, 'choices': [], 'mode': 'cbc', 'salt': salt,
                 'large': True}
